@@ -156,6 +156,42 @@ def explain_model(src, out, wits):
     return None, "subgraphs are accepted one by one but not together"
 
 
+def reader_output_lists(data, rng=None):
+    """what the real reader makes of the subgraph output lists of a model (bytes): per subgraph
+    (original index list, [n] + duplicate-free list as tensor indices + original_output_positions).  With rng the
+    output index vectors are first overwritten in place with random picks among their own entries (so that lists with
+    repeated tensors, which generated models seldom have, are exercised)."""
+    import contextlib, io
+    from ethosu.vela import tflite_reader
+    from ethosu.vela.tflite import Model
+    buf = bytearray(data)
+    model = Model.Model.GetRootAsModel(buf, 0)
+    for k in range(model.SubgraphsLength()):
+        v = model.Subgraphs(k).OutputsAsNumpy()
+        if rng is not None and not isinstance(v, int) and len(v) >= 2:
+            pool = [int(x) for x in v]
+            new = [rng.choice(pool) for _ in pool]
+            import struct
+            raw = struct.pack("<%di" % len(pool), *pool)
+            hits = [i for i in range(0, len(buf) - len(raw) + 1, 4) if buf[i:i + len(raw)] == raw and
+                    struct.unpack_from("<I", buf, i - 4)[0] == len(pool)] if len(raw) else []
+            if len(hits) == 1:
+                struct.pack_into("<%di" % len(pool), buf, hits[0], *new)     # the vector's own bytes (length-prefixed int32)
+    model = Model.Model.GetRootAsModel(buf, 0)
+    with contextlib.redirect_stdout(io.StringIO()):
+        g = tflite_reader.TFLiteGraph(buf, 1, {}, [], [])
+    rows = []
+    for k, (tsg, sg) in enumerate(zip(g.subgraphs, g.nng.subgraphs)):
+        v = model.Subgraphs(k).OutputsAsNumpy()
+        orig = [] if isinstance(v, int) else [int(x) for x in v]
+        idx = {id(t): i for i, t in enumerate(tsg.tensors)}
+        nv = len(tsg.virtual_outputs)
+        held = sg.output_tensors[:len(sg.output_tensors) - nv] if nv else list(sg.output_tensors)
+        pos = sg.original_output_positions
+        rows.append((orig, [len(held)] + [idx[id(t)] for t in held] + [int(x) for x in (pos if pos is not None else [])]))
+    return rows
+
+
 def run(tier):
     res = vlib.Result("C11", tier, "translation_validation")
     b = vlib.build_property("C11")
@@ -181,6 +217,7 @@ def run(tier):
                              "args": ["--accelerator-config", acc], "capture": False})
     results = compiles.run_all(jobs, timeout=900)
     cases, meta, skipped = [], [], collections.Counter()
+    ol_cases, ol_errors = [], []
     reparse_fail = []
     from ethosu.vela import model_reader
     for r in results:
@@ -205,10 +242,22 @@ def run(tier):
                 reparse_fail.append((r, "read_model returned nothing"))
         except BaseException as ex:  # noqa
             reparse_fail.append((r, "%s: %s" % (type(ex).__name__, ex)))
+        try:
+            data = open(src_path, "rb").read()
+            for variant in range(4):
+                for row in reader_output_lists(data, None if variant == 0 else random.Random("c11ol/%s/%d" % (r["job"]["seed"], variant))):
+                    if variant == 0 or len(row[0]) >= 2:
+                        ol_cases.append(row)
+        except BaseException as ex:  # noqa
+            ol_errors.append("%s: %s: %s" % (r.get("net_name"), type(ex).__name__, ex))
         flat, wits = flat_model(src, out)
         cases.append(flat)
         meta.append((r, src, out, wits))
     outs = models.run_parallel("check_preserved_model", cases, exe_name="preserve") if okx and cases else []
+    # the reader's duplicate-free output list and original_output_positions against model/OutputList.v (dedup, positions)
+    ol_distinct = sorted(set((tuple(a), tuple(b)) for a, b in ol_cases))
+    ol_outs = models.run_parallel("output_list", [list(a) for a, _ in ol_distinct], exe_name="preserve") if okx and ol_distinct else []
+    ol_diffs = [(a, b, o) for (a, b), o in zip(ol_distinct, ol_outs) if list(b) != list(o)]
     programs, rejected, samples = 0, [], []
     with_cpu = multi_sg = subgraphs = cpu_consts_off0 = 0
     for (r, src, out, wits), o in zip(meta, outs):
@@ -235,6 +284,17 @@ def run(tier):
                             "source_ops": [[x["opcode"] for x in g["operators"]] for g in src["subgraphs"]],
                             "output_ops": [[x["custom_code"] or x["opcode"] for x in g["operators"]] for g in out["subgraphs"]],
                             "matched_cpu_ops": sum(len(w[1]) for w in wits)})
+    res.cov["output_list_correspondence"] = {
+        "cases": len(ol_cases), "distinct_lists": len(ol_distinct), "lists_with_a_repeated_tensor": sum(1 for a, _ in ol_distinct if len(set(a)) < len(a)),
+        "length_histogram": dict(collections.Counter(len(a) for a, _ in ol_distinct)), "differences": len(ol_diffs), "reader_errors": ol_errors[:5],
+        "what": "tflite_reader.TFLiteGraph on every source model and on three variants whose output index vectors are overwritten in place "
+                "with random picks among their own entries: (duplicate-free list, original_output_positions) == (dedup, positions) of model/OutputList.v"}
+    for a, b, o in ol_diffs[:5]:
+        res.violation({"correspondence": "output_list", "outputs": list(a)}, {"outputs": list(a), "reader": list(b), "model": list(o)},
+                      "C11: the reader's output list for subgraph outputs %s is %s, the model says %s" % (list(a), list(b), list(o)))
+    if ol_errors or (okx and not ol_distinct):
+        res.violation({"correspondence": "output_list", "machinery": "reader run failed"}, {"errors": ol_errors[:5]},
+                      "C11: output list correspondence could not run: %s" % (ol_errors[:1],))
     res.cov.update({
         "programs": programs, "disagreements_checked": len(rejected) + len(reparse_fail), "samples": samples or [{"note": "none"}],
         "programs_with_cpu_operators": with_cpu, "skipped": dict(skipped),
@@ -252,7 +312,8 @@ def run(tier):
         key = {"net": r.get("net_name"), "seed": r["job"]["seed"], "why": why[:40]}
         if why_sg == "number of subgraph inputs/outputs differs" and k is not None:
             import os
-            s0 = tflsum.summarise(os.path.join(r["job"]["out_dir"], "model.tflite"))["subgraphs"][k]
+            sp = os.path.join(r["job"]["out_dir"], "model.tflite")
+            s0 = tflsum.summarise(sp if os.path.exists(sp) else r["job"].get("tflite"))["subgraphs"][k]
             o0 = artefacts.load(r)["summary"]["subgraphs"][k]
             dedup = []
             for t in s0["outputs"]:
